@@ -2,8 +2,7 @@
 # try_mutant.sh <property> <mutant-dir> [tier] [extra properties...]
 # 1. in the mutant's own scratch worktree: patch applies, tree builds, the existing suite passes,
 #    the demonstration fails with the patch and passes without it;
-# 2. applies the patch to /repo, runs the property's check (and any extra ones), and ALWAYS
-#    restores /repo afterwards.
+# 2. runs the property's check (and any extra ones) against that worktree with the patch applied.
 # Prints one JSON line with the outcome.
 set -u
 P=$1; D=$(realpath "$2"); TIER=${3:-quick}; shift; shift; shift || true
@@ -32,17 +31,16 @@ nfail=0; for i in 1 2 3 4 5; do (cd $pkgdir && timeout 150 go test -vet=off -cou
 rm -f $pkgdir/zz_mutant_demo_test.go
 git checkout -q -- .
 [ $nfail -ge 4 ] || fail "demo fails only $nfail/5 with the patch"
-# now against /repo with the real checks
-cd /repo
-[ -z "$(git status --porcelain)" ] || fail "/repo not clean"
-trap 'git -C /repo checkout -q -- .' EXIT
-git apply $D/patch.diff || fail "patch does not apply to /repo"
+# now the real checks, against the mutant's worktree with the patch applied (VERIF_REPO), so
+# that /repo is never touched and several mutants can be evaluated side by side
+git apply $D/patch.diff
+mkdir -p $D/evidence $D/replays
 res=""
 for prop in $P $EXTRA; do
-  out=$(cd /verif && timeout 3000 ./vcheck $prop --tier $TIER 2>&1); rc=$?
-  echo "=== vcheck $prop rc=$rc" >>$log; echo "$out" | cut -c1-600 | head -40 >>$log
+  out=$(cd /verif && VERIF_REPO=$WT VERIF_EVIDENCE_DIR=$D/evidence VERIF_REPLAY_DIR=$D/replays VERIF_WORKERS=${VERIF_WORKERS:-8} timeout 3000 ./vcheck $prop --tier $TIER 2>&1); rc=$?
+  echo "=== vcheck $prop rc=$rc" >>$log; echo "$out" | cut -c1-700 | head -40 >>$log
   nv=$(echo "$out" | grep -c '^VIOLATION')
   res="$res\"$prop\":{\"rc\":$rc,\"violation_lines\":$nv},"
 done
-git -C /repo checkout -q -- .
+git checkout -q -- .
 echo "{\"property\":\"$P\",\"dir\":\"$D\",\"ok\":true,\"demo_fail\":\"$nfail/5\",\"tier\":\"$TIER\",\"checks\":{${res%,}}}"
